@@ -641,6 +641,12 @@ def gen_config(rng, spec, k):
     for i in range(1, n):
         if grid[i] - grid[i - 1] < 1e-3 * spec["T"]:
             grid[i] = grid[i - 1] + 1e-3 * spec["T"]
+    grid_int = False
+    if rng.random() < 0.3 and np.floor(t0 + spec["T"]) - np.floor(t0) >= 3:
+        # integer-typed observation times (the initial time stays whatever it is, possibly fractional)
+        ints = np.unique(np.rint(np.linspace(np.floor(t0) + 1, np.floor(t0 + spec["T"]), n)).astype(int))
+        if len(ints) == n:
+            grid, grid_int = [float(v) for v in ints], True
     cls = LOSSES[k % 5]
     theta_true = [float(spec["params"][q]) for q in pn]
     tp = None
@@ -660,7 +666,7 @@ def gen_config(rng, spec, k):
     x0_int = bool(all(v == int(v) for v in x0) and rng.random() < 0.6)
     wform = ["none", "scalar", "per_state", "per_obs", "per_state_row", "per_obs_col"][int(rng.integers(0, 6))]
     sform = ["scalar", "per_obs", "per_state", "scalar_int"][int(rng.integers(0, 4))]
-    c = dict(spec=spec, n=n, p=p, cols=cols, names_none=names_none, grid=grid, cls=cls, tp=tp, ts=ts,
+    c = dict(spec=spec, n=n, p=p, cols=cols, names_none=names_none, grid=grid, grid_int=grid_int, cls=cls, tp=tp, ts=ts,
              theta0=[pert(theta_true[i]) for i in tsel], theta1=[pert(theta_true[i]) for i in tsel],
              theta_iv=[pert(theta_true[i]) for i in tsel] + [round(pert(x0[i]) + 0.5, 3) for i in ssel],
              x0=x0, x0_int=x0_int, noise=rng.uniform(-0.3, 0.3, size=(n, p)).tolist(),
@@ -716,7 +722,8 @@ def run_config(c, m=None):
     ssel = c["ts"] if c["ts"] is not None else list(range(nS))
     m.parameters = dict(zip(pn, theta_true))
     kw = dict(theta=np.array(c["theta0"]), ode=m, x0=[int(v) for v in x0] if c["x0_int"] else list(x0), t0=t0,
-              t=np.array(grid), y=(y[:, 0].copy() if p == 1 else y.copy()),
+              t=(np.array([int(v) for v in grid], dtype=int) if c.get("grid_int") else np.array(grid)),
+              y=(y[:, 0].copy() if p == 1 else y.copy()),
               state_name=None if c["names_none"] else ([spec["states"][j] for j in cols] if p > 1 else spec["states"][cols[0]]),
               state_weight=warg, target_param=None if c["tp"] is None else [pn[i] for i in c["tp"]],
               target_state=None if c["ts"] is None else [spec["states"][i] for i in c["ts"]])
